@@ -454,3 +454,6 @@ package channels
 //@     applied(s, E) && !isCleanup(s.Status) && isCleanup(step(s, E).Status) ==> entryRuns(s, E)
 //@ lemma [once-per-entry] {C09}: foreach E in (*) except (CompleteCleanupOnRestart) :: foreach S in statuses(Cancelling, Failing, Completing) ::
 //@     forall s State :: s.Status == S && step(s, E).Status == s.Status ==> !entryRuns(s, E)
+//@ lemma [cancel-fail-cleanup-stays] {C09}: foreach E in (*) except (CleanupComplete, Open, Cancel, Error, Complete, BeginFinalizing) ::
+//@     foreach S in statuses(Cancelling, Failing) :: forall s State :: s.Status == S ==> step(s, E).Status == S
+//@     -- while cancelling / failing, only the ending events themselves can move the channel: late protocol events are recorded, never acted on
